@@ -107,10 +107,58 @@ def handleKm (o : Op) : String :=
   | some a, some n, some tag, some k, some h, some sid => toHex (keyMat a.hash k h tag sid n)
   | _, _, _, _, _, _ => "bad-op"
 
+/-- `tables`: cipherModes and macModes of the package (names, key / IV sizes, AEAD flag; MAC key size, EtM flag,
+    tag size), sorted by name -/
+def handleTables : String :=
+  let cs := ["3des-cbc", "aes128-cbc", "aes128-ctr", "aes128-gcm@openssh.com", "aes192-ctr", "aes256-ctr",
+    "aes256-gcm@openssh.com", "arcfour", "arcfour128", "arcfour256", "chacha20-poly1305@openssh.com"]
+  let ms := ["hmac-sha1", "hmac-sha1-96", "hmac-sha2-256", "hmac-sha2-256-etm@openssh.com", "hmac-sha2-512",
+    "hmac-sha2-512-etm@openssh.com"]
+  let b (x : Bool) : String := if x then "1" else "0"
+  let c := cs.filterMap fun n => (cipherInfo n).map fun i => s!"{n}:{i.keySize}:{i.ivSize}:{b i.aead}"
+  let m := ms.filterMap fun n => (macByName n).map fun a => s!"{n}:{a.keyLen}:{b a.etm}:{a.size}"
+  s!"ciphers={",".intercalate c};macs={",".intercalate m}"
+
+/-- `npc dir=c|s c= m= hash= k= h= sid= seq= p= rnd=`: newPacketCipher — IV, key and MAC key derived by
+    generateKeyMaterial under the direction's tags (client→server A, C, E; server→client B, D, F), then the
+    history is written and read back as in `w` -/
+def handleNpc (o : Op) : String :=
+  match Prim.algByName (o.str "hash"), hexArg o "k", hexArg o "h", hexArg o "sid", o.nat? "seq", hexListArg o "p", hexArg o "rnd" with
+  | some a, some k, some h, some sid, some seq, some ps, some rnd =>
+    if seq ≥ 4294967296 then "bad-op" else
+    match cipherInfo (o.str "c") with
+    | none => "bad-op"
+    | some info =>
+      let tags : Option (UInt8 × UInt8 × UInt8) :=
+        match o.str "dir" with
+        | "c" => some (65, 67, 69)
+        | "s" => some (66, 68, 70)
+        | _ => none
+      match tags with
+      | none => "bad-op"
+      | some (ivTag, keyTag, macTag) =>
+        let iv := keyMat a.hash k h [ivTag] sid info.ivSize
+        let key := keyMat a.hash k h [keyTag] sid info.keySize
+        let mkey := if info.aead then [] else
+          match macByName (o.str "m") with
+          | some ma => keyMat a.hash k h [macTag] sid ma.keyLen
+          | none => []
+        match mkMode (o.str "c") (o.str "m") key iv mkey (totalLen ps) with
+        | none => "bad-op"
+        | some (mode, st0) =>
+          let c0 : Conn := ⟨st0, UInt32.ofNat seq⟩
+          let (ws, cw) := writeAll mode c0 rnd ps
+          let wires : List Bytes := ws.filterMap fun w => match w with | Except.ok b => some b | Except.error _ => none
+          let (rs, cr) := readAll mode (wires.length + 1) c0 wires.flatten
+          s!"w={showWrites ws};seq={cw.seq.toNat};r={showRead mode.isCbc rs};rseq={cr.seq.toNat}"
+  | _, _, _, _, _, _, _ => "bad-op"
+
 def handle (line : String) : String :=
   let o := parseOp line
   match o.cmd with
   | "w" => handleW o
+  | "tables" => handleTables
+  | "npc" => handleNpc o
   | "km" => handleKm o
   | "prim" => handlePrim o
   | _ => "bad-op"
